@@ -840,7 +840,7 @@ class GitWorkingTree(MutableGitIndexTree, workingtree.WorkingTree):
 
         This is a hook for subclasses to perform cleanup operations.
         """
-        pass
+        self._flush_ignore_list_cache()
 
     def _detect_case_handling(self):
         """Detect whether the filesystem is case-sensitive.
